@@ -114,8 +114,36 @@ fn render_buffer_rgb_underline() {
     buffer_rgb(2);
 }
 
-/// Color's render/write entry points select the buffer of the matching kind and slot,
-/// and the io::Write path writes exactly the buffer (symbolic colour, no formatting machinery)
+/// records the one slice handed to write_all, copied at fixed positions (no symbolic-index writes)
+struct OneShot {
+    b: [u8; DISPLAY_BUFFER_CAPACITY],
+    len: usize,
+    calls: usize,
+}
+
+impl std::io::Write for OneShot {
+    fn write(&mut self, buf: &[u8]) -> std::io::Result<usize> {
+        Ok(buf.len())
+    }
+    fn write_all(&mut self, buf: &[u8]) -> std::io::Result<()> {
+        self.calls += 1;
+        self.len = buf.len();
+        let mut i = 0;
+        while i < DISPLAY_BUFFER_CAPACITY {
+            if i < buf.len() {
+                self.b[i] = buf[i];
+            }
+            i += 1;
+        }
+        Ok(())
+    }
+    fn flush(&mut self) -> std::io::Result<()> {
+        Ok(())
+    }
+}
+
+/// Color's write entry points select the buffer of the matching kind and slot and write exactly
+/// its bytes, once (symbolic colour and slot; the io::Write path uses no formatting machinery)
 #[cfg_attr(kani, kani::proof, kani::unwind(21))]
 #[cfg_attr(not(kani), test)]
 fn render_color_write_paths() {
@@ -132,9 +160,9 @@ fn render_color_write_paths() {
         (Color::Rgb(x), 1) => x.as_bg_buffer(),
         (Color::Rgb(x), _) => x.as_underline_buffer(),
     };
-    let mut out: crate::verif_kani::util::Buf<24> = crate::verif_kani::util::Buf::new();
+    let mut out = OneShot { b: [0; DISPLAY_BUFFER_CAPACITY], len: 0, calls: 0 };
     let r = if slot == 0 { c.write_fg_to(&mut out) } else if slot == 1 { c.write_bg_to(&mut out) } else { c.write_underline_to(&mut out) };
-    assert!(r.is_ok() && !out.overflow && out.len == want.len, "the io::Write path writes the colour buffer");
+    assert!(r.is_ok() && out.calls == 1 && out.len == want.len, "the io::Write path writes the colour buffer, once");
     let mut i = 0;
     while i < DISPLAY_BUFFER_CAPACITY {
         if i < want.len {
